@@ -313,6 +313,110 @@ func (e *env) runBomb(c *Case) ([]F, map[string]interface{}) {
 			obs["coq"] = term
 		}
 	}
+	if execFamilies[c.Family] {
+		// the response of these families is small whatever the depth: execution must be quick as well
+		v, xerr, how := e.executeWithin(execCap, e.schema.Query, query)
+		switch how {
+		case "timeout":
+			fs = append(fs, F{"execute-does-not-finish:" + c.Family, fmt.Sprintf("family %s depth %d (%d bytes): no response within %s", c.Family, c.Depth, len(q), execCap)})
+			obs["leave_process"] = true
+		case "panic":
+			fs = append(fs, F{"execute-panic", firstLine(fmt.Sprint(xerr))})
+		default:
+			if xerr != nil {
+				fs = append(fs, F{"bomb-execution-fails", firstLine(xerr.Error())})
+			} else if n := jsonNodes(v); n > visitCoeff*size {
+				fs = append(fs, F{"response-superlinear:" + c.Family, fmt.Sprintf("%d response nodes for %d query nodes", n, size)})
+			}
+		}
+	}
+	return fs, obs
+}
+
+const execCap = 8 * time.Second // a small request must be answered within this (on the unchanged tree: milliseconds)
+
+// executeWithin runs Execute on its own goroutine and gives up waiting after limit (how = "timeout"; the
+// goroutine cannot be stopped: the caller asks for a fresh process afterwards).
+func (e *env) executeWithin(limit time.Duration, typ graphql.Type, q *graphql.Query) (v interface{}, err error, how string) {
+	type res struct {
+		v   interface{}
+		err error
+		pan string
+	}
+	ch := make(chan res, 1)
+	ctx, cancel := context.WithCancel(context.Background())
+	defer cancel()
+	go func() {
+		v, err, pan := e.safeExecute(ctx, typ, q)
+		ch <- res{v, err, pan}
+	}()
+	select {
+	case r := <-ch:
+		if r.pan != "" {
+			return nil, errors.New(r.pan), "panic"
+		}
+		return r.v, r.err, "done"
+	case <-time.After(limit):
+		return nil, nil, "timeout"
+	}
+}
+
+func jsonNodes(v interface{}) int {
+	switch x := v.(type) {
+	case map[string]interface{}:
+		n := 1
+		for _, e := range x {
+			n += jsonNodes(e)
+		}
+		return n
+	case []interface{}:
+		n := 1
+		for _, e := range x {
+			n += jsonNodes(e)
+		}
+		return n
+	}
+	return 1
+}
+
+// runFanout: a list of many objects with expensive / batch / plain fields and more levels below; the request
+// must terminate with a response.
+func (e *env) runFanout(c *Case) ([]F, map[string]interface{}) {
+	var fs []F
+	obs := map[string]interface{}{}
+	query, perr, pan := safeParse(c.Query, nil)
+	if pan != "" || perr != nil {
+		return []F{{"harness-fanout-rejected", firstLine(pan + fmt.Sprint(perr))}}, obs
+	}
+	if err, pp := safePrepare(e.schema.Query, query.SelectionSet); pp != "" || err != nil {
+		return []F{{"harness-fanout-rejected", firstLine(pp + fmt.Sprint(err))}}, obs
+	}
+	base := runtime.NumGoroutine()
+	t0 := time.Now()
+	v, xerr, how := e.executeWithin(execCap, e.schema.Query, query)
+	switch how {
+	case "timeout":
+		fs = append(fs, F{"execute-does-not-finish:fanout", fmt.Sprintf("no response within %s :: %s", execCap, c.Query)})
+		obs["leave_process"] = true
+		return fs, obs
+	case "panic":
+		return append(fs, F{"execute-panic", firstLine(fmt.Sprint(xerr))}), obs
+	}
+	if xerr != nil {
+		return append(fs, F{"fanout-execution-fails", firstLine(xerr.Error()) + " :: " + c.Query}), obs
+	}
+	b, _ := json.Marshal(v)
+	var out struct {
+		Many []interface{} `json:"many"`
+	}
+	json.Unmarshal(b, &out)
+	if len(out.Many) != c.Depth {
+		fs = append(fs, F{"fanout-entries-lost", fmt.Sprintf("%d entries for many(n: %d) :: %s", len(out.Many), c.Depth, c.Query)})
+	}
+	obs["ms"], obs["n"] = time.Since(t0).Milliseconds(), c.Depth
+	if n, ok := settle(base); !ok {
+		fs = append(fs, F{"goroutine-leak:fanout", fmt.Sprintf("%d goroutines before, %d after the response", base, n)})
+	}
 	return fs, obs
 }
 
